@@ -1,12 +1,15 @@
 #!/bin/bash
-# usage: tools/freeze.sh <dir> — build mc and the ruschm binary from /repo's current tree and copy them to <dir>;
+# usage: tools/freeze.sh <dir> — build mc and the ruschm binary (both profiles) from /repo's current tree and copy them to <dir>;
 # then: VERIF_FROZEN_DIR=<dir> tools/run_all.sh thorough    (a long run that later rebuilds cannot disturb)
 set -e
 D="$1"; mkdir -p "$D"
 cd /verif/mc
 export CARGO_NET_OFFLINE=true RUSTFLAGS="--cfg ruschm_verif"
 cargo build --profile verif --offline -q 2>/verif/target/build.log
+cargo build --profile verifrel --offline -q 2>/verif/target/build.log
 CARGO_TARGET_DIR=/verif/target/repo-bin cargo build --manifest-path /repo/Cargo.toml --bin ruschm --offline -q 2>/verif/target/build-bin.log
-cp /verif/target/verif/mc "$D/mc"; cp /verif/target/repo-bin/debug/ruschm "$D/ruschm"
+CARGO_TARGET_DIR=/verif/target/repo-bin cargo build --manifest-path /repo/Cargo.toml --bin ruschm --release --offline -q 2>/verif/target/build-bin.log
+cp /verif/target/verif/mc "$D/mc"; cp /verif/target/verifrel/mc "$D/mc-release"
+cp /verif/target/repo-bin/debug/ruschm "$D/ruschm"; cp /verif/target/repo-bin/release/ruschm "$D/ruschm-release"
 git -C /repo rev-parse HEAD > "$D/repo-head"; git -C /repo status --porcelain >> "$D/repo-head"
 echo "frozen at $(head -1 $D/repo-head)"
